@@ -118,6 +118,18 @@ Theorem C14_hit_returns_entry_of_query : forall (H : fpr -> name) (ops : ddops c
 Proof. exact answer_is_stored. Qed.
 Print Assumptions C14_hit_returns_entry_of_query.
 
+(* a hit is read-only: answering without a search changes no entry of the store -- in particular not
+   the entry that is handed out (store_spec already demands it of __contains__/__getitem__: their frame
+   conditions; this lifts it to _maybe_run_optimizer) *)
+Theorem C14_hit_is_read_only : forall (H : fpr -> name) (ops : ddops con) (orc : nat -> net -> con) (Inv : dd con -> Prop)
+    (view : dd con -> dkey -> option con) (good : dkey -> Prop) (okcfg : cfg -> Prop),
+  store_spec ops Inv view good -> (forall c q, okcfg c -> good (key_of H c q)) ->
+  forall c, okcfg c -> forall d ns q cn, Inv d ->
+  fst (maybe_run H ops orc c (d, ns) q) = Ok (false, cn) ->
+  forall k, good k -> view (fst (snd (maybe_run H ops orc c (d, ns) q))) k = view d k.
+Proof. exact hit_is_read_only. Qed.
+Print Assumptions C14_hit_is_read_only.
+
 Theorem C14_repeat_query_no_search_same_path : forall (H : fpr -> name) (ops : ddops con) (orc : nat -> net -> con) (Inv : dd con -> Prop)
     (view : dd con -> dkey -> option con) (good : dkey -> Prop) (okcfg : cfg -> Prop),
   store_spec ops Inv view good -> (forall c q, okcfg c -> good (key_of H c q)) ->
